@@ -7,10 +7,10 @@ import common as C
 from props import _runseq
 
 PROPERTY = "C19"
-LEAN_MODULES = ["LccModel.Props.C19", "LccModel.Props.C19Runs", "LccModel.Props.C19Content"]
-PROPS_FILES = ["LccModel/Props/C19.lean", "LccModel/Props/C19Runs.lean", "LccModel/Props/C19Content.lean"]
+LEAN_MODULES = ["LccModel.Props.C19", "LccModel.Props.C19Runs", "LccModel.Props.C19Content", "LccModel.Props.C19Tree"]
+PROPS_FILES = ["LccModel/Props/C19.lean", "LccModel/Props/C19Runs.lean", "LccModel/Props/C19Content.lean", "LccModel/Props/C19Tree.lean"]
 NAMESPACES = {"LccModel/Props/C19.lean": "LccModel.C19", "LccModel/Props/C19Runs.lean": "LccModel.C19Runs",
-              "LccModel/Props/C19Content.lean": "LccModel.C19Runs"}
+              "LccModel/Props/C19Content.lean": "LccModel.C19Runs", "LccModel/Props/C19Tree.lean": "LccModel.C19Runs"}
 DRIVER = "drivers/C19.lean"
 TRUSTED_BASE = [
     "Lean 4.33.0 kernel; axioms of the property theorems ⊆ {propext, Classical.choice, Quot.sound}",
@@ -34,7 +34,9 @@ EXPLANATION = ("Theorems over all histories (LccModel.C19.*) proved in Lean; the
                "leave their directory empty, failing runs, explicit directories) over a run-level model that is simulated onto the first one; "
                "it is tied to cli/commands/run.py and project.py by driving sequences of real runs (cli.main, run_suites_from_project with "
                "re-used Project / cli_args objects, subprocesses) on a real project directory, directories identified by inode, and by decision "
-               "tables of the glue (Generated/C19TablesCheck.lean).")
+               "tables of the glue (Generated/C19TablesCheck.lean). Whatever a report directory holds (files of any name incl. *.tmp, nested "
+               "directories, links, empty directories) is an input of both streams and is compared byte for byte at any depth across every "
+               "operation; the corresponding theorems are over trees (LccModel.C19Runs, Props/C19Tree.lean).")
 
 
 def _listing(top):
@@ -52,12 +54,29 @@ def _listing(top):
             else:
                 arch.append([name, -2])
     arch.sort(key=lambda x: (str(type(x[0])), x[0]))
-    return {"current": cur, "arch": arch}
+    # the content of every directory byte for byte (any depth), by the marker of the run that made it
+    prints = {}
+    if cur is not None and cur >= 0:
+        prints[str(cur)] = _runseq.fingerprint(os.path.join(top, "report"))
+    for slot, m in arch:
+        if isinstance(slot, int) and m >= 0:
+            prints[str(m)] = _runseq.fingerprint(os.path.join(rdir, "report-%d" % slot))
+    return {"current": cur, "arch": arch, "prints": prints}
 
 
 # names a project directory may legitimately have
 DIR_NAMES = ["proj[1]", "proj[ab]", "[tests]", "c++ tests", "proj (copy)", "what?", "star*", "a{b,c}", "dollar$", "pipe|x", "caret^",
              "back\\slash", "sp ace", "dot.dir", "report-1", "reports", "é-ü", "tab\tname", "plus+plus", "!bang", "~tilde", "#hash"]
+
+
+# what a report directory may hold when the next run starts (relative path -> kind): the backends' files, attachments under any
+# name (also names ending in .tmp), nested directories, dotfiles, leftovers of a killed atomic save, symbolic links, empty directories
+CONTENT = dict(_runseq.LEFTOVERS)
+CONTENT.update({
+    "report.js": ("file", "var reporting_data = {}"), "report.html": ("file", "<html/>"),
+    "attachments/0001_note.txt": ("file", "a note"), "attachments/0002_device-dump.tmp": ("file", "dump"),
+    "attachments/0003_.hidden": ("file", "h"), "attachments/0004_core.tmp": ("file", "\x7fELF"), "attachments/sub/x.tmp": ("file", "x"),
+})
 
 
 class Hist(C.Stream):
@@ -68,6 +87,10 @@ class Hist(C.Stream):
     thorough_seconds = 400
     # minimal past disagreements / interesting shapes, replayed first
     corpus = [
+        # the previous report holds files named *.tmp (an attachment, leftovers at any depth, a link, an empty directory): seeded/C19-12
+        {"ops": [{"op": "run", "limit": 3, "content": ["report.js", "attachments/0002_device-dump.tmp"]}, {"op": "run", "limit": 3}]},
+        {"ops": [{"op": "run", "limit": 2, "content": ["report.js.123.tmp", "logs/a/b/trace.tmp", "latest.tmp", "empty.tmp", ".env.tmp", "dangling"]}] * 4,
+         "dirname": "proj[1]"},
         # project directories whose name contains glob / regex metacharacters (D37: `glob` took `[1]` for a class)
         {"ops": [{"op": "run", "limit": 3}] * 5, "dirname": "proj[1]"},
         {"ops": [{"op": "run", "limit": 2}] * 4, "dirname": "c++ tests (copy)"},
@@ -101,6 +124,9 @@ class Hist(C.Stream):
                 ops.append({"op": "delete", "n": rng.randint(1, max(2, min(runs, 8)))})
             else:
                 ops.append({"op": "delcur"})
+        for op in ops:
+            if op["op"] == "run" and rng.random() < 0.5:
+                op["content"] = sorted(rng.sample(sorted(CONTENT), rng.choice([1, 2, 3, 6])))
         return {"ops": ops, "dirname": rng.choice(DIR_NAMES) if rng.random() < 0.45 else "proj"}
 
     def impl(self, case):
@@ -124,6 +150,8 @@ class Hist(C.Stream):
                     empty = os.listdir(d) == []
                     with open(os.path.join(d, "marker"), "w") as fh:
                         fh.write(str(marker))
+                    # what the run (its backends, its tests' attachments, its hooks) leaves in its directory
+                    _runseq.plant(d, op.get("content", []), CONTENT)
                     st = _listing(top)
                     st["new_dir_empty"] = empty
                     st["returned"] = os.path.relpath(d, top)
@@ -144,13 +172,22 @@ class Hist(C.Stream):
 
     def oracle(self, case, obs):
         fails = []
-        prev = {"current": None, "arch": []}
+        prev = {"current": None, "arch": [], "prints": {}}
         for k, (op, st) in enumerate(zip(case["ops"], obs["states"])):
             if "error" in st:
                 fails.append(C.Failure("C19/create-raised", f"op {k}: create_report_dir_with_rotation raised {st['error']}"))
                 break
             old = {m: s for s, m in prev["arch"]}
             new = {m: s for s, m in st["arch"]}
+            # every directory that exists before and after an operation holds byte for byte what it held
+            for m, fp in prev.get("prints", {}).items():
+                now = st.get("prints", {}).get(m)
+                if now is not None and now != fp:
+                    nowd = dict(map(tuple, now))
+                    lost = [a for a, _ in fp if a not in nowd]
+                    fails.append(C.Failure("C19/archive-differs-from-report",
+                                           f"op {k} ({op['op']}): the directory of run {m} no longer holds what the run left in it: lost {lost}, "
+                                           f"changed {[a for a, b in fp if a in nowd and nowd[a] != b]}, added {[a for a in nowd if a not in dict(map(tuple, fp))]}"))
             if op["op"] == "run":
                 if not st.get("new_dir_empty", True):
                     fails.append(C.Failure("C19/new-dir-not-empty", f"op {k}: new report directory is not empty"))
@@ -223,6 +260,10 @@ class Hist(C.Stream):
     def features(self, case, obs):
         f = ["len<=10" if len(case["ops"]) <= 10 else "len>10"]
         f.append("dirname=plain" if (case.get("dirname") or "proj") == "proj" else "dirname=special")
+        for o in case["ops"]:
+            for rel in o.get("content", []):
+                kind = CONTENT[rel][0]
+                f.append("content:" + ("*.tmp-" if rel.endswith(".tmp") else "") + kind + ("-nested" if "/" in rel else ""))
         lims = {str(o.get("limit")) for o in case["ops"] if o["op"] == "run"}
         f += ["limit=" + l for l in sorted(lims)]
         prev = {"arch": []}
@@ -242,7 +283,13 @@ class Hist(C.Stream):
     def shrink(self, case):
         ops = case["ops"]
         for i in range(len(ops)):
-            yield {"ops": ops[:i] + ops[i + 1:]}
+            yield dict(case, ops=ops[:i] + ops[i + 1:])
+        for i, op in enumerate(ops):
+            c = op.get("content") or []
+            for j in range(len(c)):
+                yield dict(case, ops=ops[:i] + [dict(op, content=c[:j] + c[j + 1:])] + ops[i + 1:])
+        if (case.get("dirname") or "proj") != "proj":
+            yield dict(case, dirname="proj")
 
 
 TABLE_OPENS = ("LccModel.RunSeq",)
